@@ -25,6 +25,7 @@ import (
 	"bytes"
 	"errors"
 	"fmt"
+	"math"
 	"math/rand"
 	"path/filepath"
 	"sort"
@@ -860,7 +861,7 @@ func (comp) Run(h *core.History, scratch string) *core.Result {
 // refused with ErrCacheSizeIsLowerThanBatchSize exactly when MaxBatchSize > Capacity.
 func (comp) Extra(p string, tier string, seed int64, scratch string) *core.ExtraResult {
 	res := &core.ExtraResult{Counts: map[string]int{}, Exhaustive: true}
-	res.Rule = "factory.NewStorageUnitFromConf on the grid capacity 0..6 x MaxBatchSize -2..8 x {LRU, SizeLRU, FIFOSharded} x {MemoryDB, LvlDB, LvlDBSerial}: " +
+	res.Rule = "factory.NewStorageUnitFromConf on the grid capacity 0..6 x MaxBatchSize -2..8 x {LRU, SizeLRU, FIFOSharded} x {MemoryDB, LvlDB, LvlDBSerial}, plus 14 refused cases at the edge of int / uint32 (MaxBatchSize 2^31 .. MaxInt64, Capacity up to MaxUint32): " +
 		"the error is ErrCacheSizeIsLowerThanBatchSize exactly when MaxBatchSize > Capacity (Coq: factory_refuses); when it is not refused " +
 		"and the cache configuration is valid, a working unit is returned"
 	n := 0
@@ -904,6 +905,31 @@ func (comp) Extra(p string, tier string, seed int64, scratch string) *core.Extra
 					if v, e2 := u.Get([]byte("k")); e2 != nil || string(v) != "v" {
 						res.Fails = append(res.Fails, core.Fail{Property: prop, Step: -1, Msg: "factory: the built unit does not return the written value: " + desc})
 					}
+					_ = u.Close()
+				}
+			}
+		}
+	}
+	// the same rule at the edge of the integer types involved (MaxBatchSize is an int, Capacity a uint32): only cases the rule refuses,
+	// so that no cache of billions of entries is ever built
+	for kind := 0; kind < 3; kind++ {
+		for _, e := range []struct {
+			capacity uint32
+			mb       int
+		}{{10, 1 << 31}, {10, 1<<32 - 1}, {10, 1 << 32}, {10, 1<<32 + 1}, {10, 1<<32 + 10}, {10, 3<<32 + 7}, {10, 1 << 40}, {10, math.MaxInt64},
+			{0, 1 << 32}, {1, 1<<32 + 1}, {math.MaxUint32, 1 << 32}, {math.MaxUint32, 1<<32 + 5}, {1 << 31, 1<<31 + 1}, {1<<31 - 1, 1 << 31}} {
+			cc := common.CacheConfig{Name: "verif", Type: cacheTypeOf(kind), Capacity: e.capacity, Shards: 1}
+			if kind == 1 {
+				cc.SizeInBytes = sizedLRUBytes
+			}
+			dc := common.DBConfig{FilePath: filepath.Join(scratch, "edge"), Type: dbTypeOf(0), BatchDelaySeconds: 3600, MaxBatchSize: e.mb, MaxOpenFiles: 10}
+			u, err := factory.NewStorageUnitFromConf(cc, dc)
+			n++
+			res.Counts["edge-refused"]++
+			if !errors.Is(err, common.ErrCacheSizeIsLowerThanBatchSize) || u != nil {
+				res.Fails = append(res.Fails, core.Fail{Property: prop, Step: -1,
+					Msg: fmt.Sprintf("factory guard: cache=%s capacity=%d MaxBatchSize=%d: not refused (err=%v), rule MaxBatchSize > Capacity says refused", cc.Type, e.capacity, e.mb, err)})
+				if u != nil {
 					_ = u.Close()
 				}
 			}
